@@ -46,6 +46,11 @@ pub struct Plan {
     /// (`alignment::io::Writer`: header, records, `finish(&header)`)
     #[serde(default)]
     pub facade: bool,
+    /// SAM / SAM.gz / VCF / VCF.gz: the writer made by `io::writer::Builder::build_from_writer`
+    /// (`Writer<Box<dyn Write>>`: header, records, `get_mut().flush()`; the BGZF EOF block is written
+    /// when it is dropped)
+    #[serde(default)]
+    pub builder: bool,
 }
 
 fn plans_for(n_calls: u64, total_bytes: usize, slow: bool, rng: &mut Rng) -> Vec<WritePlan> {
@@ -189,7 +194,15 @@ impl C14 {
     fn run_one(&self, made: &Made, reference: &[u8], wp: &WritePlan, ctx: &mut RunCtx) -> Option<Violation> {
         let kind = made.spec.kind;
         let sink = SimWrite::new(wp.clone());
+        // builder-made writers: what the sink had seen when the last protocol call returned (the rest
+        // happens in Drop, where nothing can be reported)
+        let pre_drop_calls = std::rc::Rc::new(std::cell::Cell::new(None::<u64>));
+        {
+            let (p2, s2) = (pre_drop_calls.clone(), sink.clone());
+            kinds::set_before_drop(Some(Box::new(move || p2.set(Some(s2.counters().calls)))));
+        }
         let res = crate::kernel::fresh_thread_if(matches!(kind, Kind::Cram | Kind::Crai), || catch(|| kinds::write_to(kind, &made.model, sink.clone())));
+        kinds::set_before_drop(None);
         let c = sink.counters();
         let s = &mut *ctx.stats;
         s.evaluations += 1;
@@ -215,6 +228,15 @@ impl C14 {
             }
         };
         let hard_fired = c.failed > 0 || c.zero > 0;
+        if hard_fired && res.is_ok() {
+            if let (Some(pre), Some(first)) = (pre_drop_calls.get(), c.first_fail_call) {
+                if first >= pre {
+                    // the fault struck only calls made while the writer was dropped
+                    s.probe("fault_only_reachable_in_drop", 1);
+                    return None;
+                }
+            }
+        }
         if hard_fired {
             // (a) some protocol call at or after the failing sink call must return Err
             match res {
@@ -438,6 +460,7 @@ impl Check for C14 {
                         mt: Some(mp),
                         mt_calls: Vec::new(),
                         facade: false,
+                        builder: false,
                     })
                     .unwrap();
                 }
@@ -455,6 +478,7 @@ impl Check for C14 {
             mt_calls: Vec::new(),
             // every third round of an alignment kind goes through the noodles-util facade writer
             facade: kinds::facade_writer_kind(kind) && round % 3 == 2,
+            builder: kinds::builder_writer_kind(kind) && round % 3 == 1,
         })
         .unwrap()
     }
@@ -462,6 +486,7 @@ impl Check for C14 {
         let p: Plan = serde_json::from_value(plan.clone()).expect("bad C14 plan");
         // the model file itself is always built by the format crate's own writer
         kinds::set_facade_writer(false);
+        kinds::set_builder_writer(false);
         if let Some(mp) = &p.mt {
             return self.run_mt(&p, mp, ctx);
         }
@@ -475,6 +500,8 @@ impl Check for C14 {
         let kind = p.file.kind;
         // which writer protocol `kinds::write_to` uses on this thread for the rest of the case
         kinds::set_facade_writer(p.facade);
+        kinds::set_builder_writer(p.builder);
+        ctx.stats.probe_if("builder_made_writer", p.builder);
         ctx.stats.kind(if p.facade { "alignment kinds through the noodles-util facade writer" } else { kind.name() });
         ctx.stats.probe_if("noodles_util_facade_writer", p.facade);
         let mut findings = Vec::new();
@@ -490,6 +517,7 @@ impl Check for C14 {
                         mt: None,
                         mt_calls: Vec::new(),
                         facade: p.facade,
+                        builder: p.builder,
                     })
                     .unwrap(),
                 });
@@ -550,7 +578,13 @@ impl Check for C14 {
         }
         // fault-free reference run on the simulated sink: counts the calls; (b) decodes to the model
         let sink0 = SimWrite::new(WritePlan::plain());
+        let pre_drop_len = std::rc::Rc::new(std::cell::Cell::new(None::<usize>));
+        {
+            let (p2, s2) = (pre_drop_len.clone(), sink0.clone());
+            kinds::set_before_drop(Some(Box::new(move || p2.set(Some(s2.data().len())))));
+        }
         let r0 = crate::kernel::fresh_thread_if(matches!(kind, Kind::Cram | Kind::Crai), || catch(|| kinds::write_to(kind, &made.model, sink0.clone())));
+        kinds::set_before_drop(None);
         match r0 {
             Ok(Ok(())) => {}
             Ok(Err(e)) => {
@@ -570,6 +604,18 @@ impl Check for C14 {
         let reference = sink0.data();
         ctx.stats.evaluations += 1;
         ctx.stats.probe("fault_free_configuration", 1);
+        // builder-made writers: when `get_mut().flush()` has returned Ok the destination holds
+        // everything but the BGZF EOF block (28 bytes), which only Drop can write
+        if let Some(pre) = pre_drop_len.get() {
+            let want = reference.len() - if matches!(kind, Kind::SamGz | Kind::VcfGz) { 28.min(reference.len()) } else { 0 };
+            if pre != want {
+                report(
+                    Violation::new(&kinds::writer_name(kind), "data-left-behind", "after-flush", format!("every call incl. get_mut().flush() returned Ok, but the destination held {pre} bytes then; after the drop it holds {} (only the 28-byte EOF block may be written in Drop)", reference.len())),
+                    Faults::List(vec![WritePlan::plain()]),
+                    &mut findings,
+                );
+            }
+        }
         // the writer output decodes to exactly what was written
         let written: Vec<u8> = reference.clone();
         if let Some((class, msg)) = decode_check(&made, written) {
@@ -653,6 +699,7 @@ impl Check for C14 {
                     mt: None,
                     mt_calls: Vec::new(),
                         facade: p.facade,
+                        builder: p.builder,
                 })
                 .unwrap()
             }) {
